@@ -104,7 +104,7 @@ func certRun(args []string) error {
 	}); err != nil {
 		return err
 	}
-	sizes := []int{0, 1, 23, 24, 255, 256}
+	sizes := []int{0, 1, 23, 24, 255, 256, 511, 512, 513, 4095, 4096, 4097}
 	if thorough {
 		sizes = append(sizes, 65535, 65536)
 	}
